@@ -469,6 +469,8 @@ func (p *parser) primary() SVal {
 			return SVal{s.False(), types.Typ[types.Bool]}
 		case "nil":
 			return SVal{s.Var("nil", false), nil}
+		case "_":
+			return SVal{s.Var("_", false), nil}
 		}
 		// package qualifier?
 		if p.isOp(".") {
